@@ -76,6 +76,7 @@ def run(check, obs, labels, limit=None, invariants=INVS, random=True, conform=Fa
         del generated
     if random:
         judge(usimrun.random_runs(check, conform=conform))
+        judge(usimrun.teardown_runs(check))        # children blocked in every kind of wait torn down, then inspected
     if more:
         judge(list(more))
     check.samples = samples
